@@ -858,7 +858,7 @@ class Engine:
             return self.conc(Sym(z3.Sum(*[e * (256 ** k) for k, e in enumerate(el)]) if el else z3.IntVal(0)))
         if isinstance(f, (types.BuiltinMethodType, types.BuiltinFunctionType)):
             slf = getattr(f, '__self__', None)
-            if isinstance(slf, (list, dict, set)) or slf is None:
+            if isinstance(slf, (list, dict, set)) or (slf is None and f.__name__ != 'join'):
                 # list.append/insert/pop, dict.get, ... : containers are concrete, payloads symbolic
                 if f.__name__ == 'join' and isinstance(slf, (bytes, str)):
                     raise Unsupported('join over symbolic elements')
@@ -867,9 +867,9 @@ class Engine:
                 parts = list(self.iterate(args[0]))
                 if len(slf) != 0:
                     raise Unsupported('bytes.join with separator')
-                acc = SBytes.from_elems([])
+                acc = b''
                 for p in parts:
-                    acc = self.bytes_concat(acc, p)
+                    acc = self.binop(ast.Add(), acc, p)
                 return acc
         raise Unsupported(f'builtin {getattr(f, "__qualname__", f)} on symbolic arguments')
 
